@@ -246,6 +246,93 @@ fn pairs<B: Fld>(run: &Run, n: usize) {
     });
 }
 
+/// sets of assertions handed to the system together: every assertion must come back as exactly one
+/// boundary constraint whose group divisor vanishes on exactly the steps the assertion names and
+/// whose value polynomial reproduces its values (grouping must not lend an assertion another
+/// assertion's divisor)
+fn sets<B: Fld>(run: &Run, n: usize) {
+    let dom = domain::<B>(n);
+    let specs = all_specs(n);
+    let exhaustive_pairs = n <= 16;
+    let cases = if exhaustive_pairs { (specs.len() * specs.len()) as u64 } else { run.size(1500, 40_000) };
+    run.par(&format!("{}-sets-{n}", B::NAME), cases, |i, rng, st| {
+        let mut picks: Vec<(usize, usize)> = if exhaustive_pairs {
+            vec![((i as usize) / specs.len(), 0), ((i as usize) % specs.len(), rng.usize(2))]
+        } else {
+            let k = rng.range(2, 7);
+            (0..k).map(|_| (rng.usize(specs.len()), rng.usize(3))).collect()
+        };
+        // every second large case: force assertions that share a first step but differ in stride
+        if !exhaustive_pairs && i % 2 == 0 {
+            let first = specs[picks[0].0].first;
+            let same: Vec<usize> = (0..specs.len()).filter(|&j| specs[j].first == first).collect();
+            for (t, p) in picks.iter_mut().enumerate().skip(1) {
+                *p = (same[rng.usize(same.len())], t % 3);
+            }
+        }
+        // keep a non-overlapping subset
+        let mut kept: Vec<(usize, usize, [u64; 16])> = Vec::new();
+        for (j, col) in picks.drain(..) {
+            let m = specs[j].mask(n);
+            if kept.iter().all(|(_, c, km)| *c != col || (0..16).all(|k| km[k] & m[k] == 0)) {
+                kept.push((j, col, m));
+            }
+        }
+        let vals: Vec<Vec<B>> = kept.iter().enumerate().map(|(t, (j, _, _))| (0..specs[*j].count).map(|k| B::from((100_000 * (t + 1) + k + 1) as u32)).collect()).collect();
+        let asserts: Vec<Assertion<B>> = kept.iter().zip(&vals).map(|((j, col, _), v)| specs[*j].build::<B>(*col, v)).collect();
+        let describe = || J::A(kept.iter().map(|(j, col, _)| J::obj(vec![("column", J::i(*col)), ("assertion", specs[*j].json())])).collect());
+        let ctx = context::<B>(n, 3, asserts.len());
+        let coeffs = vec![B::ONE; asserts.len()];
+        let bc = match catch(|| BoundaryConstraints::<B>::new(&ctx, asserts.clone(), vec![], &coeffs)) {
+            Ok(b) => b,
+            Err(p) => {
+                vfail::<B>(st, "boundary-set:well-formed-set-refused", n, J::obj(vec![("assertions", describe()), ("panic", J::s(p.msg))]));
+                return;
+            },
+        };
+        let mut matched = vec![false; kept.len()];
+        let mut total = 0;
+        for g in bc.main_constraints() {
+            let mut roots = [0u64; 16];
+            for (s, x) in dom.iter().enumerate() {
+                if vanishes(g.divisor(), *x) {
+                    roots[s / 64] |= 1 << (s % 64);
+                }
+            }
+            for c in g.constraints() {
+                total += 1;
+                let hit = (0..kept.len()).find(|&t| {
+                    let (j, col, m) = &kept[t];
+                    !matched[t]
+                        && *col == c.column()
+                        && *m == roots
+                        && specs[*j].steps(n).iter().enumerate().all(|(k, s)| c.evaluate_at(dom[*s], vals[t][if specs[*j].kind == "sequence" { k } else { 0 }]) == B::ZERO)
+                });
+                match hit {
+                    Some(t) => matched[t] = true,
+                    None => {
+                        let r: Vec<usize> = (0..n).filter(|s| (roots[s / 64] >> (s % 64)) & 1 == 1).take(12).collect();
+                        vfail::<B>(st, "boundary-set:constraint-divisor-names-other-steps-than-its-assertion", n, J::obj(vec![("assertions", describe()), ("constraint_column", J::i(c.column())), ("divisor_roots_first_12", J::s(format!("{r:?}")))]));
+                        return;
+                    },
+                }
+            }
+        }
+        if total != kept.len() || matched.iter().any(|m| !m) {
+            vfail::<B>(st, "boundary-set:assertion-without-constraint", n, describe());
+        }
+        st.evals += kept.len() as u64;
+        st.add("sets.assertions_matched", kept.len() as u64);
+        st.count(&format!("sets.size_{}", kept.len().min(4)));
+        let strides: std::collections::BTreeSet<usize> = kept.iter().map(|(j, _, _)| specs[*j].stride).collect();
+        let firsts: std::collections::BTreeSet<usize> = kept.iter().map(|(j, _, _)| specs[*j].first).collect();
+        if strides.len() > 1 && firsts.len() < kept.len() {
+            st.count("sets.same_first_step_different_stride");
+        }
+        st.distinct.insert(wfv::fnv(format!("{}s{n}:{i}", B::NAME).as_bytes()));
+    });
+}
+
 fn ill_formed<B: Fld>(run: &Run) {
     run.seq(&format!("{}-illformed", B::NAME), 1, |_, _, st| {
         let v = B::ONE;
@@ -298,6 +385,7 @@ fn drive<B: Fld>(run: &Run, lengths: &[usize]) {
         transition::<B>(run, n);
         assertions::<B>(run, n);
         pairs::<B>(run, n);
+        sets::<B>(run, n);
     }
 }
 
@@ -309,7 +397,7 @@ fn main() {
     drive::<f128::BaseElement>(&run, &lengths);
     let _ = Rng::new(0);
     run.finish(Finish {
-        rule: format!("exhaustive enumeration at run time for trace lengths {lengths:?} and three base fields: every exemption count 0..n/2+2 (0 and n/2+2 must be refused) with the transition divisor's zero set decided on every domain point and against the explicit product at out-of-domain points; every well-formed single/periodic/sequence assertion (all first steps, strides, value counts): apply(), divisor zero set on every domain point, explicit product, system-built boundary constraint reproduces each asserted value and rejects value+1; every ordered pair of assertions on one column: overlaps_with == step sets intersect; ill-formed constructor arguments refused. distinct = distinct (field, length, exemption count | assertion | pair row)"),
+        rule: format!("exhaustive enumeration at run time for trace lengths {lengths:?} and three base fields: every exemption count 0..n/2+2 (0 and n/2+2 must be refused) with the transition divisor's zero set decided on every domain point and against the explicit product at out-of-domain points; every well-formed single/periodic/sequence assertion (all first steps, strides, value counts): apply(), divisor zero set on every domain point, explicit product, system-built boundary constraint reproduces each asserted value and rejects value+1; every ordered pair of assertions on one column: overlaps_with == step sets intersect; sets of 2..6 non-overlapping assertions over 3 columns handed to BoundaryConstraints::new together (all ordered pairs for n <= 16, sampled sets above, half of them forced to share a first step across different strides): every assertion comes back as exactly one constraint whose group divisor vanishes on exactly its steps and whose value polynomial reproduces its values; ill-formed constructor arguments refused. distinct = distinct (field, length, exemption count | assertion | pair row)"),
         assumptions: vec!["zero set of a divisor is read as numerator(x)=0 and exemptions(x)!=0 (0/0 through evaluate_at would be an artefact)".into(), "field operations as monitored by C07".into()],
         exhaustive: true,
         require: vec![
@@ -321,6 +409,9 @@ fn main() {
             ("assertions.sequence_ge64_nonzero_first".into(), 1),
             ("pairs.checked".into(), 1000),
             ("pairs.system_screening".into(), 10),
+            ("sets.assertions_matched".into(), 1000),
+            ("sets.same_first_step_different_stride".into(), 100),
+            ("sets.size_4".into(), 50),
             ("illformed.cases".into(), 30),
         ],
         extra: vec![("trace_lengths".into(), J::A(lengths.iter().map(|x| J::i(*x)).collect()))],
